@@ -126,12 +126,17 @@ theorem finishAdd_ok (k : Nat) (n : Int) (p : LS × FRes) (v : Int) (h : p.2 = .
     finishAdd k n p = ({ st := upd p.1.st k (.value (v + n)), runs := p.1.runs }, .ok (v + n)) := by
   unfold finishAdd; rw [h]
 
-theorem finishAdd_not_ok (k : Nat) (n : Int) (p : LS × FRes) (h : ∀ v, p.2 ≠ .ok v) :
+theorem finishAdd_err (k : Nat) (n : Int) (p : LS × FRes) (e : FErr) (h : p.2 = .err e) :
+    finishAdd k n p = ({ st := upd p.1.st k (.failed e), runs := p.1.runs }, .err e) := by
+  unfold finishAdd; rw [h]
+
+theorem finishAdd_pending (k : Nat) (n : Int) (p : LS × FRes) (h : p.2 = .pending) :
     finishAdd k n p = p := by
-  unfold finishAdd
-  split
-  · rename_i v hv; exact absurd hv (h v)
-  · rfl
+  unfold finishAdd; rw [h]
+
+theorem finishAdd_nofuel (k : Nat) (n : Int) (p : LS × FRes) (h : p.2 = .nofuel) :
+    finishAdd k n p = p := by
+  unfold finishAdd; rw [h]
 
 theorem finishAdd_st_other (k : Nat) (n : Int) (p : LS × FRes) (i : Nat) (h : i ≠ k) :
     (finishAdd k n p).1.st i = p.1.st i := by
@@ -142,29 +147,40 @@ theorem finishAdd_runs (k : Nat) (n : Int) (p : LS × FRes) : (finishAdd k n p).
   unfold finishAdd
   split <;> simp
 
-/-- A computed value is never overwritten (any thread, any lazy being forced). -/
-theorem force_value_stable (d : Decls) (fuel tid j : Nat) (s : LS) (k : Nat) (v : Int)
-    (h : s.st k = .value v) : (force d fuel tid j s).1.st k = .value v := by
+/-- A cell that is neither a thunk nor a blackhole is final: no force by anyone changes it. -/
+theorem force_final_stable (d : Decls) (fuel tid j : Nat) (s : LS) (k : Nat) (x : LState)
+    (hx1 : x ≠ .thunk) (hx2 : ∀ o w, x ≠ .blackhole o w)
+    (h : s.st k = x) : (force d fuel tid j s).1.st k = x := by
   induction fuel generalizing j s with
   | zero => simpa [force] using h
   | succ fuel ih =>
     unfold force
     split
     · rename_i hj
-      have hjk : k ≠ j := by intro e; subst e; rw [h] at hj; cases hj
+      have hjk : k ≠ j := by intro e; subst e; rw [h] at hj; exact hx1 hj
       split
       · simp [upd, hjk, h]
       · simp [upd, hjk, h]
-      · rename_i j' n hd
-        rw [finishAdd_st_other _ _ _ _ hjk]
+      · rw [finishAdd_st_other _ _ _ _ hjk]
         apply ih
         simp [upd, hjk, h]
     · rename_i o w hj
       split
       · exact h
-      · have hjk : k ≠ j := by intro e; subst e; rw [h] at hj; cases hj
+      · have hjk : k ≠ j := by intro e; subst e; rw [h] at hj; exact hx2 _ _ hj
         simp [upd, hjk, h]
     · exact h
+    · exact h
+
+/-- A computed value is never overwritten (any thread, any lazy being forced). -/
+theorem force_value_stable (d : Decls) (fuel tid j : Nat) (s : LS) (k : Nat) (v : Int)
+    (h : s.st k = .value v) : (force d fuel tid j s).1.st k = .value v :=
+  force_final_stable d fuel tid j s k _ (by simp) (by simp) h
+
+/-- A recorded failure is never overwritten. -/
+theorem force_failed_stable (d : Decls) (fuel tid j : Nat) (s : LS) (k : Nat) (e : FErr)
+    (h : s.st k = .failed e) : (force d fuel tid j s).1.st k = .failed e :=
+  force_final_stable d fuel tid j s k _ (by simp) (by simp) h
 
 /-- A successful force leaves the value in the cell. -/
 theorem force_ok_sets_value (d : Decls) (fuel tid k : Nat) (s : LS) (v : Int)
@@ -182,71 +198,47 @@ theorem force_ok_sets_value (d : Decls) (fuel tid k : Nat) (s : LS) (v : Int)
         | ok v' =>
           rw [finishAdd_ok _ _ _ v' hr] at h ⊢
           simp at h; subst h; simp
-        | err e => rw [finishAdd_not_ok _ _ _ (by simp [hr])] at h; rw [hr] at h; cases h
-        | pending => rw [finishAdd_not_ok _ _ _ (by simp [hr])] at h; rw [hr] at h; cases h
-        | nofuel => rw [finishAdd_not_ok _ _ _ (by simp [hr])] at h; rw [hr] at h; cases h
+        | err e => rw [finishAdd_err _ _ _ e hr] at h; simp at h
+        | pending => rw [finishAdd_pending _ _ _ hr] at h; rw [hr] at h; cases h
+        | nofuel => rw [finishAdd_nofuel _ _ _ hr] at h; rw [hr] at h; cases h
     · split at h
       · simp at h
       · simp at h
     · rename_i v' hk
       simp at h; subst h; simpa using hk
+    · simp at h
 
-/-- Blackholes keep their owner whatever is forced by whomever (only the waiter flag can change). -/
-theorem force_blackhole_stable (d : Decls) (fuel tid j : Nat) (s : LS) (k o : Nat)
-    (h : ∃ w, s.st k = .blackhole o w) : ∃ w, (force d fuel tid j s).1.st k = .blackhole o w := by
-  induction fuel generalizing j s with
-  | zero => simpa [force] using h
-  | succ fuel ih =>
-    obtain ⟨w, hw⟩ := h
-    unfold force
-    split
-    · rename_i hj
-      have hjk : k ≠ j := by intro e; subst e; rw [hw] at hj; cases hj
-      split
-      · exact ⟨w, by simp [upd, hjk, hw]⟩
-      · exact ⟨w, by simp [upd, hjk, hw]⟩
-      · rename_i j' n hd
-        rw [finishAdd_st_other _ _ _ _ hjk]
-        apply ih
-        exact ⟨w, by simp [upd, hjk, hw]⟩
-    · rename_i o' w' hj
-      split
-      · exact ⟨w, hw⟩
-      · by_cases hjk : k = j
-        · subst hjk
-          rw [hw] at hj
-          cases hj
-          exact ⟨true, by simp [upd]⟩
-        · exact ⟨w, by simp [upd, hjk, hw]⟩
-    · exact ⟨w, hw⟩
-
-/-- A force that reports an error leaves the lazy blackholed BY THE FORCING THREAD (lazy.rs:146). -/
-theorem force_err_leaves_blackhole (d : Decls) (fuel tid k : Nat) (s : LS) (e : FErr)
-    (h : (force d fuel tid k s).2 = .err e) : ∃ w, (force d fuel tid k s).1.st k = .blackhole tid w := by
+/-- A force that finds the thunk unevaluated and reports an error records it in the cell
+    (lazy.rs:121-131). -/
+theorem force_thunk_err (d : Decls) (fuel tid k : Nat) (s : LS) (e : FErr)
+    (hk : s.st k = .thunk) (h : (force d fuel tid k s).2 = .err e) :
+    (force d fuel tid k s).1.st k = .failed e := by
   cases fuel with
   | zero => simp [force] at h
   | succ fuel =>
     unfold force at h ⊢
+    simp only [hk] at h ⊢
     split at h
-    · rename_i hk
-      split at h
-      · simp at h
-      · exact ⟨false, by simp [upd]⟩
-      · rename_i j n hd
-        have hst := force_blackhole_stable d fuel tid j
-          { st := upd s.st k (.blackhole tid false), runs := k :: s.runs } k tid ⟨false, by simp [upd]⟩
-        cases hr : (force d fuel tid j { st := upd s.st k (.blackhole tid false), runs := k :: s.runs }).2 with
-        | ok v' => rw [finishAdd_ok _ _ _ v' hr] at h; simp at h
-        | err e' => rw [finishAdd_not_ok _ _ _ (by simp [hr])]; exact hst
-        | pending => rw [finishAdd_not_ok _ _ _ (by simp [hr])]; exact hst
-        | nofuel => rw [finishAdd_not_ok _ _ _ (by simp [hr])]; exact hst
-    · rename_i o w hk
-      split at h
-      · rename_i ho
-        subst ho
-        exact ⟨w, by simpa using hk⟩
-      · simp at h
     · simp at h
+    · simp at h; subst h; simp [upd]
+    · rename_i j n hd
+      cases hr : (force d fuel tid j { st := upd s.st k (.blackhole tid false), runs := k :: s.runs }).2 with
+      | ok v' => rw [finishAdd_ok _ _ _ v' hr] at h; simp at h
+      | err e' =>
+        rw [finishAdd_err _ _ _ e' hr] at h ⊢
+        simp at h; subst h; simp [upd]
+      | pending => rw [finishAdd_pending _ _ _ hr] at h; rw [hr] at h; cases h
+      | nofuel => rw [finishAdd_nofuel _ _ _ hr] at h; rw [hr] at h; cases h
+
+theorem force_on_failed (d : Decls) (fuel tid k : Nat) (s : LS) (e : FErr) (h : s.st k = .failed e) :
+    force d (fuel + 1) tid k s = (s, .err e) := by
+  unfold force
+  rw [h]
+
+theorem force_on_value (d : Decls) (fuel tid k : Nat) (s : LS) (v : Int) (h : s.st k = .value v) :
+    force d (fuel + 1) tid k s = (s, .ok v) := by
+  unfold force
+  rw [h]
 
 /-- Forcing a lazy blackholed by `o`: the owner gets `<<loop>>`, every other thread waits. -/
 theorem force_on_blackhole (d : Decls) (fuel tid k : Nat) (s : LS) (o : Nat) (w : Bool)
@@ -255,6 +247,165 @@ theorem force_on_blackhole (d : Decls) (fuel tid k : Nat) (s : LS) (o : Nat) (w 
   unfold force
   rw [h]
   by_cases ho : o = tid <;> simp [ho]
+
+theorem force_on_own_blackhole (d : Decls) (fuel tid k : Nat) (s : LS) (w : Bool)
+    (h : s.st k = .blackhole tid w) : force d (fuel + 1) tid k s = (s, .err .loop) := by
+  unfold force
+  rw [h]
+  simp
+
+/-! ### Blackholes exist only while their owner evaluates: a force never waits, and when it returns
+    (value or error) it has removed every blackhole it created. -/
+
+def IsBH (x : LState) : Prop := ∃ o w, x = .blackhole o w
+
+/-- Every blackhole belongs to thread `tid` (the evaluation stack of the running force). -/
+def Owned (tid : Nat) (s : LS) : Prop := ∀ j o w, s.st j = .blackhole o w → o = tid
+
+def NoBH (s : LS) : Prop := ∀ j, ¬ IsBH (s.st j)
+
+theorem NoBH.owned {s : LS} (h : NoBH s) (tid : Nat) : Owned tid s := by
+  intro j o w hj
+  exact absurd ⟨o, w, hj⟩ (h j)
+
+theorem force_owned (d : Decls) (fuel tid k : Nat) (s : LS) (h : Owned tid s) :
+    (force d fuel tid k s).2 ≠ .pending ∧ Owned tid (force d fuel tid k s).1 ∧
+    ((force d fuel tid k s).2 ≠ .nofuel → ∀ j, IsBH ((force d fuel tid k s).1.st j) → IsBH (s.st j)) := by
+  induction fuel generalizing k s with
+  | zero => simp [force, h]
+  | succ fuel ih =>
+    unfold force
+    split
+    · rename_i hk
+      split
+      · refine ⟨by simp, ?_, ?_⟩
+        · intro j o w hj
+          by_cases e : j = k
+          · subst e; simp [upd] at hj
+          · simp [upd, e] at hj; exact h j o w hj
+        · intro _ j hj
+          by_cases e : j = k
+          · subst e; obtain ⟨o, w, hj⟩ := hj; simp [upd] at hj
+          · simpa [upd, e] using hj
+      · refine ⟨by simp, ?_, ?_⟩
+        · intro j o w hj
+          by_cases e : j = k
+          · subst e; simp [upd] at hj
+          · simp [upd, e] at hj; exact h j o w hj
+        · intro _ j hj
+          by_cases e : j = k
+          · subst e; obtain ⟨o, w, hj⟩ := hj; simp [upd] at hj
+          · simpa [upd, e] using hj
+      · rename_i j' n hd
+        have hs1 : Owned tid { st := upd s.st k (.blackhole tid false), runs := k :: s.runs } := by
+          intro j o w hj
+          by_cases e : j = k
+          · subst e; simp [upd] at hj; exact hj.1.symm
+          · simp [upd, e] at hj; exact h j o w hj
+        obtain ⟨ha, hb, hc⟩ := ih j' _ hs1
+        cases hr : (force d fuel tid j' { st := upd s.st k (.blackhole tid false), runs := k :: s.runs }).2 with
+        | ok v =>
+          rw [finishAdd_ok _ _ _ v hr]
+          refine ⟨by simp, ?_, ?_⟩
+          · intro j o w hj
+            by_cases e : j = k
+            · subst e; simp [upd] at hj
+            · simp [upd, e] at hj; exact hb j o w hj
+          · intro _ j hj
+            by_cases e : j = k
+            · subst e; obtain ⟨o, w, hj⟩ := hj; simp [upd] at hj
+            · have h2 : IsBH ((force d fuel tid j' { st := upd s.st k (.blackhole tid false), runs := k :: s.runs }).1.st j) := by
+                simpa [upd, e] using hj
+              have := hc (by rw [hr]; simp) j h2
+              simpa [upd, e] using this
+        | err e' =>
+          rw [finishAdd_err _ _ _ e' hr]
+          refine ⟨by simp, ?_, ?_⟩
+          · intro j o w hj
+            by_cases e : j = k
+            · subst e; simp [upd] at hj
+            · simp [upd, e] at hj; exact hb j o w hj
+          · intro _ j hj
+            by_cases e : j = k
+            · subst e; obtain ⟨o, w, hj⟩ := hj; simp [upd] at hj
+            · have h2 : IsBH ((force d fuel tid j' { st := upd s.st k (.blackhole tid false), runs := k :: s.runs }).1.st j) := by
+                simpa [upd, e] using hj
+              have := hc (by rw [hr]; simp) j h2
+              simpa [upd, e] using this
+        | pending => exact absurd hr ha
+        | nofuel =>
+          rw [finishAdd_nofuel _ _ _ hr]
+          exact ⟨by rw [hr]; simp, hb, fun hne => absurd hr hne⟩
+    · rename_i o w hk
+      have ho : o = tid := h k o w hk
+      simp [ho, h]
+    · simp [h]
+    · simp [h]
+
+/-! ### Fuel: `nofuel` needs a chain of more unevaluated lazies than there are. -/
+
+/-- Number of unevaluated lazies among `0 … n-1`. -/
+def thunkCount : Nat → (Nat → LState) → Nat
+  | 0, _ => 0
+  | n + 1, st => thunkCount n st + (if st n = .thunk then 1 else 0)
+
+/-- Only the lazies `0 … n-1` have bodies that force another lazy. -/
+def Bounded (d : Decls) (n : Nat) : Prop := ∀ k, n ≤ k → ∀ j m, d k ≠ .add j m
+
+theorem thunkCount_le (n : Nat) (st : Nat → LState) : thunkCount n st ≤ n := by
+  induction n with
+  | zero => simp [thunkCount]
+  | succ n ih => simp only [thunkCount]; split <;> omega
+
+theorem thunkCount_upd_ge (n k : Nat) (st : Nat → LState) (x : LState) (hk : n ≤ k) :
+    thunkCount n (upd st k x) = thunkCount n st := by
+  induction n with
+  | zero => simp [thunkCount]
+  | succ n ih =>
+    have hne : n ≠ k := by omega
+    simp only [thunkCount, upd, hne, if_false]
+    rw [ih (by omega)]
+
+theorem thunkCount_upd_lt (n k : Nat) (st : Nat → LState) (x : LState) (hk : k < n)
+    (ht : st k = .thunk) (hx : x ≠ .thunk) : thunkCount n (upd st k x) + 1 = thunkCount n st := by
+  induction n with
+  | zero => omega
+  | succ n ih =>
+    by_cases e : n = k
+    · subst e
+      have := thunkCount_upd_ge n n st x (Nat.le_refl _)
+      simp only [thunkCount, upd_same, ht, hx, if_true, if_false, this]
+    · have := ih (by omega)
+      simp only [thunkCount, upd, e, if_false]
+      generalize (if st n = LState.thunk then 1 else 0) = c
+      omega
+
+theorem force_fuel_enough (d : Decls) (n : Nat) (hb : Bounded d n) (fuel tid k : Nat) (s : LS)
+    (hf : thunkCount n s.st + 2 ≤ fuel) : (force d fuel tid k s).2 ≠ .nofuel := by
+  induction fuel generalizing k s with
+  | zero => omega
+  | succ fuel ih =>
+    unfold force
+    split
+    · rename_i hk
+      split
+      · simp
+      · simp
+      · rename_i j m hd
+        have hkn : k < n := by
+          by_cases hlt : k < n
+          · exact hlt
+          · exact absurd hd (hb k (by omega) j m)
+        have hc := thunkCount_upd_lt n k s.st (.blackhole tid false) hkn hk (by simp)
+        have := ih j { st := upd s.st k (.blackhole tid false), runs := k :: s.runs } (by simp only; omega)
+        cases hr : (force d fuel tid j { st := upd s.st k (.blackhole tid false), runs := k :: s.runs }).2 with
+        | ok v => rw [finishAdd_ok _ _ _ v hr]; simp
+        | err e => rw [finishAdd_err _ _ _ e hr]; simp
+        | pending => rw [finishAdd_pending _ _ _ hr, hr]; simp
+        | nofuel => exact absurd hr this
+    · split <;> simp
+    · simp
+    · simp
 
 /-! `runs`: a thunk body is started only from state `thunk`, which is left at once and never re-entered. -/
 
@@ -282,6 +433,7 @@ theorem finishAdd_runsInv (k : Nat) (n : Int) (p : LS × FRes) (h : RunsInv p.1)
   unfold finishAdd
   split
   · exact runsInv_set _ _ _ (by simp) h
+  · exact runsInv_set _ _ _ (by simp) h
   · exact h
 
 theorem force_runsInv (d : Decls) (fuel tid j : Nat) (s : LS) (h : RunsInv s) :
@@ -294,12 +446,13 @@ theorem force_runsInv (d : Decls) (fuel tid j : Nat) (s : LS) (h : RunsInv s) :
     · rename_i hj
       split
       · exact runsInv_set j _ _ (by simp) (runsInv_start tid j s h hj)
-      · exact runsInv_start tid j s h hj
+      · exact runsInv_set j _ _ (by simp) (runsInv_start tid j s h hj)
       · rename_i j' n hd
         exact finishAdd_runsInv _ _ _ (ih j' _ (runsInv_start tid j s h hj))
     · split
       · exact h
       · exact runsInv_set j _ _ (by simp) h
+    · exact h
     · exact h
 
 /-! Trace-level consequences -/
@@ -318,21 +471,6 @@ theorem trace_value_stable (d : Decls) (tr : List (Nat × POp)) (s : PState) (k 
     | load r => simpa [pstep] using h
     | store r v' => simpa [pstep] using h
     | force j => simpa [pstep] using force_value_stable d forceFuel tid j s.lz k v h
-
-theorem trace_blackhole_stable (d : Decls) (tr : List (Nat × POp)) (s : PState) (k o : Nat)
-    (h : ∃ w, s.lz.st k = .blackhole o w) : ∃ w, (runTrace d tr s).1.lz.st k = .blackhole o w := by
-  induction tr generalizing s with
-  | nil => simpa [runTrace] using h
-  | cons x tr ih =>
-    obtain ⟨tid, op⟩ := x
-    rw [runTrace_cons]
-    apply ih
-    cases op with
-    | send c v' => simpa [pstep] using h
-    | recv c => cases hq : s.chans c <;> simpa [pstep, hq] using h
-    | load r => simpa [pstep] using h
-    | store r v' => simpa [pstep] using h
-    | force j => simpa [pstep] using force_blackhole_stable d forceFuel tid j s.lz k o h
 
 theorem trace_runsInv (d : Decls) (tr : List (Nat × POp)) (s : PState) (h : RunsInv s.lz) :
     RunsInv (runTrace d tr s).1.lz := by
@@ -378,59 +516,9 @@ theorem okForces_final (d : Decls) (tr : List (Nat × POp)) (s : PState) (k : Na
       | pending => simp [okForces, pstep, hr] at h; exact ih _ h
       | nofuel => simp [okForces, pstep, hr] at h; exact ih _ h
 
-/-! ## Self-dependency -/
 
-theorem force_selfdep_never_value (d : Decls) (k : Nat) (n : Int) (hd : d k = .add k n)
-    (fuel tid j : Nat) (s : LS) (h : ∀ v, s.st k ≠ .value v) :
-    ∀ v, (force d fuel tid j s).1.st k ≠ .value v := by
-  induction fuel generalizing j s with
-  | zero => simpa [force] using h
-  | succ fuel ih =>
-    unfold force
-    split
-    · rename_i hj
-      split
-      · rename_i v' hdj
-        have hjk : k ≠ j := by intro e; subst e; rw [hd] at hdj; cases hdj
-        intro v; simp [upd, hjk]; exact h v
-      · rename_i hdj
-        have hjk : k ≠ j := by intro e; subst e; rw [hd] at hdj; cases hdj
-        intro v; simp [upd, hjk]; exact h v
-      · rename_i j' n' hdj
-        by_cases hjk : k = j
-        · subst hjk
-          rw [hd] at hdj
-          cases hdj
-          have hbh := force_blackhole_stable d fuel tid k
-            { st := upd s.st k (.blackhole tid false), runs := k :: s.runs } k tid ⟨false, by simp [upd]⟩
-          have hnot : ∀ v, (force d fuel tid k
-              { st := upd s.st k (.blackhole tid false), runs := k :: s.runs }).2 ≠ .ok v := by
-            intro v hv
-            have := force_ok_sets_value d fuel tid k _ v hv
-            obtain ⟨w, hw⟩ := hbh
-            rw [hw] at this
-            cases this
-          rw [finishAdd_not_ok _ _ _ hnot]
-          intro v hv
-          obtain ⟨w, hw⟩ := hbh
-          rw [hw] at hv
-          cases hv
-        · intro v
-          rw [finishAdd_st_other _ _ _ _ hjk]
-          apply ih
-          intro v'; simp [upd, hjk]; exact h v'
-    · rename_i o w hj
-      split
-      · exact h
-      · intro v
-        by_cases hjk : k = j
-        · subst hjk; simp [upd]
-        · simp [upd, hjk]; exact h v
-    · exact h
-
-theorem trace_selfdep_never_value (d : Decls) (k : Nat) (n : Int) (hd : d k = .add k n)
-    (tr : List (Nat × POp)) (s : PState) (h : ∀ v, s.lz.st k ≠ .value v) :
-    ∀ v, (runTrace d tr s).1.lz.st k ≠ .value v := by
+theorem trace_failed_stable (d : Decls) (tr : List (Nat × POp)) (s : PState) (k : Nat) (e : FErr)
+    (h : s.lz.st k = .failed e) : (runTrace d tr s).1.lz.st k = .failed e := by
   induction tr generalizing s with
   | nil => simpa [runTrace] using h
   | cons x tr ih =>
@@ -442,100 +530,230 @@ theorem trace_selfdep_never_value (d : Decls) (k : Nat) (n : Int) (hd : d k = .a
     | recv c => cases hq : s.chans c <;> simpa [pstep, hq] using h
     | load r => simpa [pstep] using h
     | store r v' => simpa [pstep] using h
-    | force j => simpa [pstep] using force_selfdep_never_value d k n hd forceFuel tid j s.lz h
+    | force j => simpa [pstep] using force_failed_stable d forceFuel tid j s.lz k e h
 
-/-- Forcing a directly self-dependent lazy that is not yet a value: `<<loop>>` for the thread that
-    owns (or now takes) the blackhole, an endless wait for any other thread. -/
-theorem force_selfdep_result (d : Decls) (k : Nat) (n : Int) (hd : d k = .add k n)
-    (fuel tid : Nat) (s : LS) (h : ∀ v, s.st k ≠ .value v) :
-    (force d (fuel + 2) tid k s).2 = .err .loop ∨ (force d (fuel + 2) tid k s).2 = .pending := by
+/-- With at most `forceFuel - 2` lazies whose body forces another lazy, a top-level force (no blackhole
+    around) never runs out of fuel, never waits, and leaves no blackhole behind. -/
+theorem force_top (d : Decls) (n : Nat) (hb : Bounded d n) (hn : n + 2 ≤ forceFuel) (tid k : Nat)
+    (s : LS) (h : NoBH s) :
+    (force d forceFuel tid k s).2 ≠ .nofuel ∧ (force d forceFuel tid k s).2 ≠ .pending ∧
+    NoBH (force d forceFuel tid k s).1 := by
+  have hf := force_fuel_enough d n hb forceFuel tid k s (by have := thunkCount_le n s.st; omega)
+  obtain ⟨ha, _, hc⟩ := force_owned d forceFuel tid k s (h.owned tid)
+  exact ⟨hf, ha, fun j hj => h j (hc hf j hj)⟩
+
+theorem trace_noBH (d : Decls) (n : Nat) (hb : Bounded d n) (hn : n + 2 ≤ forceFuel)
+    (tr : List (Nat × POp)) (s : PState) (h : NoBH s.lz) : NoBH (runTrace d tr s).1.lz := by
+  induction tr generalizing s with
+  | nil => simpa [runTrace] using h
+  | cons x tr ih =>
+    obtain ⟨tid, op⟩ := x
+    rw [runTrace_cons]
+    apply ih
+    cases op with
+    | send c v' => simpa [pstep] using h
+    | recv c => cases hq : s.chans c <;> simpa [pstep, hq] using h
+    | load r => simpa [pstep] using h
+    | store r v' => simpa [pstep] using h
+    | force j => simpa [pstep] using (force_top d n hb hn tid j s.lz h).2.2
+
+theorem init_noBH (cells : Nat → Int) : NoBH (PState.init cells).lz := by
+  intro j hj
+  obtain ⟨o, w, hj⟩ := hj
+  simp [PState.init] at hj
+
+/-- At top level, an error of `force k` means the cell now holds the recorded failure. -/
+theorem force_top_err_records (d : Decls) (tid k : Nat) (s : LS) (h : NoBH s) (e : FErr)
+    (he : (force d forceFuel tid k s).2 = .err e) : (force d forceFuel tid k s).1.st k = .failed e := by
   cases hk : s.st k with
-  | value v => exact absurd hk (h v)
-  | blackhole o w =>
-    rw [force_on_blackhole d (fuel + 1) tid k s o w hk]
-    by_cases ho : o = tid <;> simp [ho]
-  | thunk =>
-    left
-    have hin := force_on_blackhole d fuel tid k
-      { st := upd s.st k (.blackhole tid false), runs := k :: s.runs } tid false (by simp [upd])
-    simp at hin
-    unfold force
-    simp only [hk, hd]
-    rw [finishAdd_not_ok _ _ _ (by rw [hin]; simp)]
-    exact hin
+  | thunk => exact force_thunk_err d forceFuel tid k s e hk he
+  | blackhole o w => exact absurd ⟨o, w, hk⟩ (h k)
+  | value v =>
+    rw [show forceFuel = 7 + 1 from rfl, force_on_value d 7 tid k s v hk] at he
+    cases he
+  | failed e' =>
+    rw [show forceFuel = 7 + 1 from rfl, force_on_failed d 7 tid k s e' hk] at he ⊢
+    simp at he
+    subst he
+    exact hk
 
-/-! ## After a failure (defect D8) and the repaired `force` -/
+/-! ## Self-dependency -/
 
-theorem finishAddF_st_other (k : Nat) (n : Int) (p : LSF × FRes) (i : Nat) (h : i ≠ k) :
-    (finishAddF k n p).1.st i = p.1.st i := by
-  unfold finishAddF
+/-- For a directly self-dependent lazy `k` the cell is a thunk, a blackhole (while being evaluated) or
+    the recorded `<<loop>>` — whatever is forced by whomever. -/
+def SelfDepInv (k : Nat) (s : LS) : Prop :=
+  s.st k = .thunk ∨ s.st k = .failed .loop ∨ IsBH (s.st k)
+
+theorem force_selfdep_inv (d : Decls) (k : Nat) (n : Int) (hd : d k = .add k n)
+    (fuel tid j : Nat) (s : LS) (h : SelfDepInv k s) : SelfDepInv k (force d fuel tid j s).1 := by
+  induction fuel generalizing j s with
+  | zero => simpa [force] using h
+  | succ fuel ih =>
+    by_cases hjk : j = k
+    · subst hjk
+      cases hk : s.st j with
+      | thunk =>
+        unfold force
+        simp only [hk, hd]
+        cases fuel with
+        | zero =>
+          simp only [force]
+          rw [finishAdd_nofuel _ _ _ rfl]
+          right; right; exact ⟨tid, false, by simp [upd]⟩
+        | succ fuel =>
+          rw [force_on_own_blackhole d fuel tid j _ false (by simp [upd])]
+          rw [finishAdd_err _ _ _ .loop rfl]
+          right; left; simp [upd]
+      | blackhole o w =>
+        unfold force
+        simp only [hk]
+        split
+        · right; right; exact ⟨o, w, hk⟩
+        · right; right; exact ⟨o, true, by simp [upd]⟩
+      | value v =>
+        rcases h with h | h | ⟨o, w, h⟩ <;> rw [hk] at h <;> cases h
+      | failed e =>
+        rw [force_on_failed d fuel tid j s e hk]
+        exact h
+    · have hkj : k ≠ j := fun e => hjk e.symm
+      unfold force
+      split
+      · split
+        · simpa [SelfDepInv, upd, hkj] using h
+        · simpa [SelfDepInv, upd, hkj] using h
+        · rename_i j' n' hdj
+          have h1 : SelfDepInv k { st := upd s.st j (.blackhole tid false), runs := j :: s.runs } := by
+            simpa [SelfDepInv, upd, hkj] using h
+          have := ih j' _ h1
+          unfold SelfDepInv at this ⊢
+          rw [finishAdd_st_other _ _ _ _ hkj]
+          exact this
+      · split
+        · exact h
+        · simpa [SelfDepInv, upd, hkj] using h
+      · exact h
+      · exact h
+
+theorem trace_selfdep_inv (d : Decls) (k : Nat) (n : Int) (hd : d k = .add k n)
+    (tr : List (Nat × POp)) (s : PState) (h : SelfDepInv k s.lz) : SelfDepInv k (runTrace d tr s).1.lz := by
+  induction tr generalizing s with
+  | nil => simpa [runTrace] using h
+  | cons x tr ih =>
+    obtain ⟨tid, op⟩ := x
+    rw [runTrace_cons]
+    apply ih
+    cases op with
+    | send c v' => simpa [pstep] using h
+    | recv c => cases hq : s.chans c <;> simpa [pstep, hq] using h
+    | load r => simpa [pstep] using h
+    | store r v' => simpa [pstep] using h
+    | force j => simpa [pstep] using force_selfdep_inv d k n hd forceFuel tid j s.lz h
+
+/-- A force inside its own thunk: the inner force reports `<<loop>>`, the outer computation fails with
+    it and records it. -/
+theorem force_selfdep_thunk (d : Decls) (k : Nat) (n : Int) (hd : d k = .add k n)
+    (fuel tid : Nat) (s : LS) (hk : s.st k = .thunk) :
+    (force d (fuel + 2) tid k s).2 = .err .loop := by
+  unfold force
+  simp only [hk, hd]
+  rw [force_on_own_blackhole d fuel tid k _ false (by simp [upd])]
+  rw [finishAdd_err _ _ _ .loop rfl]
+
+/-! ## The old rule (before commit b4f59e3): a failed thunk left `Blackhole(owner)` — defect D8 -/
+
+theorem finishAddOld_ok (k : Nat) (n : Int) (p : LSOld × FRes) (v : Int) (h : p.2 = .ok v) :
+    finishAddOld k n p = ({ st := upd p.1.st k (.value (v + n)), runs := p.1.runs }, .ok (v + n)) := by
+  unfold finishAddOld; rw [h]
+
+theorem finishAddOld_not_ok (k : Nat) (n : Int) (p : LSOld × FRes) (h : ∀ v, p.2 ≠ .ok v) :
+    finishAddOld k n p = p := by
+  unfold finishAddOld
+  split
+  · rename_i v hv; exact absurd hv (h v)
+  · rfl
+
+theorem finishAddOld_st_other (k : Nat) (n : Int) (p : LSOld × FRes) (i : Nat) (h : i ≠ k) :
+    (finishAddOld k n p).1.st i = p.1.st i := by
+  unfold finishAddOld
   split <;> simp [upd, h]
 
-theorem forceFixed_failed_stable (d : Decls) (fuel tid j : Nat) (s : LSF) (k : Nat) (e : FErr)
-    (h : s.st k = .failed e) : (forceFixed d fuel tid j s).1.st k = .failed e := by
+/-- Blackholes keep their owner whatever is forced by whomever (only the waiter flag can change). -/
+theorem forceOld_blackhole_stable (d : Decls) (fuel tid j : Nat) (s : LSOld) (k o : Nat)
+    (h : ∃ w, s.st k = .blackhole o w) : ∃ w, (forceOld d fuel tid j s).1.st k = .blackhole o w := by
   induction fuel generalizing j s with
-  | zero => simpa [forceFixed] using h
+  | zero => simpa [forceOld] using h
   | succ fuel ih =>
-    unfold forceFixed
+    obtain ⟨w, hw⟩ := h
+    unfold forceOld
     split
     · rename_i hj
-      have hjk : k ≠ j := by intro x; subst x; rw [h] at hj; cases hj
+      have hjk : k ≠ j := by intro e; subst e; rw [hw] at hj; cases hj
       split
-      · simp [upd, hjk, h]
-      · simp [upd, hjk, h]
-      · rw [finishAddF_st_other _ _ _ _ hjk]
+      · exact ⟨w, by simp [upd, hjk, hw]⟩
+      · exact ⟨w, by simp [upd, hjk, hw]⟩
+      · rename_i j' n hd
+        rw [finishAddOld_st_other _ _ _ _ hjk]
         apply ih
-        simp [upd, hjk, h]
-    · rename_i o w hj
+        exact ⟨w, by simp [upd, hjk, hw]⟩
+    · rename_i o' w' hj
       split
-      · exact h
-      · have hjk : k ≠ j := by intro x; subst x; rw [h] at hj; cases hj
-        simp [upd, hjk, h]
-    · exact h
-    · exact h
+      · exact ⟨w, hw⟩
+      · by_cases hjk : k = j
+        · subst hjk
+          rw [hw] at hj
+          cases hj
+          exact ⟨true, by simp [upd]⟩
+        · exact ⟨w, by simp [upd, hjk, hw]⟩
+    · exact ⟨w, hw⟩
 
-theorem forceFixed_thunk_err (d : Decls) (fuel tid k : Nat) (s : LSF) (e : FErr)
-    (hk : s.st k = .thunk) (h : (forceFixed d fuel tid k s).2 = .err e) :
-    (forceFixed d fuel tid k s).1.st k = .failed e := by
+/-- A force that reports an error leaves the lazy blackholed BY THE FORCING THREAD (old lazy.rs:146). -/
+theorem forceOld_err_leaves_blackhole (d : Decls) (fuel tid k : Nat) (s : LSOld) (e : FErr)
+    (h : (forceOld d fuel tid k s).2 = .err e) : ∃ w, (forceOld d fuel tid k s).1.st k = .blackhole tid w := by
   cases fuel with
-  | zero => simp [forceFixed] at h
+  | zero => simp [forceOld] at h
   | succ fuel =>
-    unfold forceFixed at h ⊢
-    simp only [hk] at h ⊢
+    unfold forceOld at h ⊢
     split at h
-    · simp at h
-    · simp at h; subst h; simp [upd]
-    · rename_i j n hd
-      unfold finishAddF at h ⊢
+    · rename_i hk
       split at h
       · simp at h
-      · rename_i e' he'
-        simp at h; subst h
-        simp [upd]
-      · rename_i hne1 hne2
-        cases hr : (forceFixed d fuel tid j { st := upd s.st k (.blackhole tid false), runs := k :: s.runs }).2 with
-        | ok v => exact absurd hr (hne1 v)
-        | err e' => exact absurd hr (hne2 e')
-        | pending => rw [hr] at h; cases h
-        | nofuel => rw [hr] at h; cases h
+      · exact ⟨false, by simp [upd]⟩
+      · rename_i j n hd
+        have hst := forceOld_blackhole_stable d fuel tid j
+          { st := upd s.st k (.blackhole tid false), runs := k :: s.runs } k tid ⟨false, by simp [upd]⟩
+        cases hr : (forceOld d fuel tid j { st := upd s.st k (.blackhole tid false), runs := k :: s.runs }).2 with
+        | ok v' => rw [finishAddOld_ok _ _ _ v' hr] at h; simp at h
+        | err e' => rw [finishAddOld_not_ok _ _ _ (by simp [hr])]; exact hst
+        | pending => rw [finishAddOld_not_ok _ _ _ (by simp [hr])]; exact hst
+        | nofuel => rw [finishAddOld_not_ok _ _ _ (by simp [hr])]; exact hst
+    · rename_i o w hk
+      split at h
+      · rename_i ho
+        subst ho
+        exact ⟨w, by simpa using hk⟩
+      · simp at h
+    · simp at h
 
-theorem forceFixed_on_failed (d : Decls) (fuel tid k : Nat) (s : LSF) (e : FErr) (h : s.st k = .failed e) :
-    (forceFixed d (fuel + 1) tid k s).2 = .err e := by
-  unfold forceFixed
+/-- Forcing a lazy blackholed by `o`: the owner gets `<<loop>>`, every other thread waits. -/
+theorem forceOld_on_blackhole (d : Decls) (fuel tid k : Nat) (s : LSOld) (o : Nat) (w : Bool)
+    (h : s.st k = .blackhole o w) :
+    (forceOld d (fuel + 1) tid k s).2 = if o = tid then .err .loop else .pending := by
+  unfold forceOld
   rw [h]
+  by_cases ho : o = tid <;> simp [ho]
 
-/-- A sequence of forces `(thread, lazy)` in the repaired model. -/
-def runForcesF (d : Decls) : List (Nat × Nat) → LSF → LSF
+/-- A sequence of forces `(thread, lazy)` under the old rule. -/
+def runForcesOld (d : Decls) : List (Nat × Nat) → LSOld → LSOld
   | [], s => s
-  | (tid, j) :: tr, s => runForcesF d tr (forceFixed d forceFuel tid j s).1
+  | (tid, j) :: tr, s => runForcesOld d tr (forceOld d forceFuel tid j s).1
 
-theorem runForcesF_failed_stable (d : Decls) (tr : List (Nat × Nat)) (s : LSF) (k : Nat) (e : FErr)
-    (h : s.st k = .failed e) : (runForcesF d tr s).st k = .failed e := by
+theorem runForcesOld_blackhole_stable (d : Decls) (tr : List (Nat × Nat)) (s : LSOld) (k o : Nat)
+    (h : ∃ w, s.st k = .blackhole o w) : ∃ w, (runForcesOld d tr s).st k = .blackhole o w := by
   induction tr generalizing s with
-  | nil => simpa [runForcesF] using h
+  | nil => simpa [runForcesOld] using h
   | cons x tr ih =>
     obtain ⟨tid, j⟩ := x
-    simp only [runForcesF]
-    exact ih _ (forceFixed_failed_stable d forceFuel tid j s k e h)
+    simp only [runForcesOld]
+    exact ih _ (forceOld_blackhole_stable d forceFuel tid j s k o h)
 
 end GluonModel.Chan
